@@ -67,3 +67,18 @@ Example C18_example :
   tests_of_dir [("a.go", flat_map render_decl ds); ("b_test.go", ["func testSkipped() bool {"]); ("c.go~", ["func testOld() {"])]
   = [(false, "Add"); (true, "_x9")].
 Proof. vm_compute. repeat split. Qed.
+
+(* the generated Go file compiles as far as its imports go: a package without
+   any test function gets the fixed text below, which does not mention the
+   disk package (and does not import it); with at least one test the disk
+   import is there and every test uses it *)
+Theorem C18_go_file_without_tests : forall d, tests_of_dir d = [] ->
+  gen_go d = (go_header_no_tests ++ go_footer)%string /\ contains "disk" (gen_go d) = false.
+Proof. exact go_file_without_tests. Qed.
+Print Assumptions C18_go_file_without_tests.
+
+Theorem C18_go_file_with_tests : forall d, tests_of_dir d <> [] ->
+  gen_go d = (go_header ++ concat_str (map go_test (tests_of_dir d)) ++ go_footer)%string /\
+  forall t, In t (tests_of_dir d) -> contains "disk.Init" (go_test t) = true.
+Proof. exact go_file_with_tests. Qed.
+Print Assumptions C18_go_file_with_tests.
